@@ -627,17 +627,32 @@ var reloadScripts = []func(x *reloadRun){
 		ctx := context.Background()
 		db := x.client.Database("d1")
 		x.call(func() error { return db.CreateCollection(ctx, "never") })
-		x.call(func() error { _, err := db.Collection("emptied").InsertOne(ctx, bson.D{{Key: "_id", Value: int32(1)}}); return err })
+		x.call(func() error {
+			_, err := db.Collection("emptied").InsertOne(ctx, bson.D{{Key: "_id", Value: int32(1)}})
+			return err
+		})
 		x.call(func() error { _, err := db.Collection("emptied").DeleteMany(ctx, bson.D{}); return err })
 	},
 	// nil vs empty vs non-empty partial filter, compound key, custom names, unique
 	func(x *reloadRun) {
 		ctx := context.Background()
 		c := x.client.Database("d1").Collection("c")
-		x.call(func() error { _, err := c.InsertOne(ctx, bson.D{{Key: "_id", Value: int32(1)}, {Key: "a", Value: int32(1)}, {Key: "b", Value: int32(2)}}); return err })
-		x.call(func() error { _, err := c.Indexes().CreateOne(ctx, mongo.IndexModel{Keys: bson.D{{Key: "a", Value: int32(1)}}, Options: options.Index().SetUnique(true)}); return err })
-		x.call(func() error { _, err := c.Indexes().CreateOne(ctx, mongo.IndexModel{Keys: bson.D{{Key: "b", Value: int32(-1)}}, Options: options.Index().SetUnique(true).SetPartialFilterExpression(bson.D{})}); return err })
-		x.call(func() error { _, err := c.Indexes().CreateOne(ctx, mongo.IndexModel{Keys: bson.D{{Key: "b", Value: int32(1)}, {Key: "a", Value: int32(-1)}}, Options: options.Index().SetName("n.a.m.e").SetPartialFilterExpression(bson.D{{Key: "a", Value: bson.D{{Key: "$gt", Value: int32(0)}}}})}); return err })
+		x.call(func() error {
+			_, err := c.InsertOne(ctx, bson.D{{Key: "_id", Value: int32(1)}, {Key: "a", Value: int32(1)}, {Key: "b", Value: int32(2)}})
+			return err
+		})
+		x.call(func() error {
+			_, err := c.Indexes().CreateOne(ctx, mongo.IndexModel{Keys: bson.D{{Key: "a", Value: int32(1)}}, Options: options.Index().SetUnique(true)})
+			return err
+		})
+		x.call(func() error {
+			_, err := c.Indexes().CreateOne(ctx, mongo.IndexModel{Keys: bson.D{{Key: "b", Value: int32(-1)}}, Options: options.Index().SetUnique(true).SetPartialFilterExpression(bson.D{})})
+			return err
+		})
+		x.call(func() error {
+			_, err := c.Indexes().CreateOne(ctx, mongo.IndexModel{Keys: bson.D{{Key: "b", Value: int32(1)}, {Key: "a", Value: int32(-1)}}, Options: options.Index().SetName("n.a.m.e").SetPartialFilterExpression(bson.D{{Key: "a", Value: bson.D{{Key: "$gt", Value: int32(0)}}}})})
+			return err
+		})
 	},
 	// numeric type distinctions and special values inside documents
 	func(x *reloadRun) {
@@ -652,35 +667,65 @@ var reloadScripts = []func(x *reloadRun){
 				{Key: "re", Value: primitive.Regex{Pattern: "a", Options: "xi"}}, {Key: "ts", Value: primitive.Timestamp{T: 4294967295, I: 4294967295}}, {Key: "nil", Value: nil}})
 			return err
 		})
-		x.call(func() error { _, err := c.UpdateOne(ctx, bson.D{}, bson.D{{Key: "$inc", Value: bson.D{{Key: "i", Value: int32(1)}, {Key: "l", Value: int32(1)}, {Key: "f", Value: int32(1)}}}}); return err })
+		x.call(func() error {
+			_, err := c.UpdateOne(ctx, bson.D{}, bson.D{{Key: "$inc", Value: bson.D{{Key: "i", Value: int32(1)}, {Key: "l", Value: int32(1)}, {Key: "f", Value: int32(1)}}}})
+			return err
+		})
 	},
 	// the change log after insert, update, replace, delete
 	func(x *reloadRun) {
 		ctx := context.Background()
 		c := x.client.Database("d1").Collection("log")
-		x.call(func() error { _, err := c.InsertOne(ctx, bson.D{{Key: "_id", Value: int32(1)}, {Key: "a", Value: bson.A{int32(1)}}}); return err })
-		x.call(func() error { _, err := c.UpdateOne(ctx, bson.D{}, bson.D{{Key: "$push", Value: bson.D{{Key: "a", Value: int64(2)}}}, {Key: "$unset", Value: bson.D{{Key: "zz", Value: ""}}}}); return err })
+		x.call(func() error {
+			_, err := c.InsertOne(ctx, bson.D{{Key: "_id", Value: int32(1)}, {Key: "a", Value: bson.A{int32(1)}}})
+			return err
+		})
+		x.call(func() error {
+			_, err := c.UpdateOne(ctx, bson.D{}, bson.D{{Key: "$push", Value: bson.D{{Key: "a", Value: int64(2)}}}, {Key: "$unset", Value: bson.D{{Key: "zz", Value: ""}}}})
+			return err
+		})
 		x.call(func() error { _, err := c.ReplaceOne(ctx, bson.D{}, bson.D{{Key: "b", Value: nil}}); return err })
 		x.call(func() error { _, err := c.DeleteOne(ctx, bson.D{}); return err })
 		x.call(func() error { return c.Drop(ctx) })
 	},
 	// KNOWN DEFECT: dotted database name
 	func(x *reloadRun) {
-		x.call(func() error { _, err := x.client.Database("a.b").Collection("c").InsertOne(context.Background(), bson.D{{Key: "_id", Value: int32(1)}}); return err })
+		x.call(func() error {
+			_, err := x.client.Database("a.b").Collection("c").InsertOne(context.Background(), bson.D{{Key: "_id", Value: int32(1)}})
+			return err
+		})
 	},
 	// KNOWN DEFECT, second face: ("a.b","c") and ("a","b.c") share the persisted name "a.b.c"
 	func(x *reloadRun) {
 		ctx := context.Background()
-		x.call(func() error { _, err := x.client.Database("a.b").Collection("c").InsertOne(ctx, bson.D{{Key: "_id", Value: int32(1)}}); return err })
-		x.call(func() error { _, err := x.client.Database("a").Collection("b.c").InsertOne(ctx, bson.D{{Key: "_id", Value: int32(2)}}); return err })
+		x.call(func() error {
+			_, err := x.client.Database("a.b").Collection("c").InsertOne(ctx, bson.D{{Key: "_id", Value: int32(1)}})
+			return err
+		})
+		x.call(func() error {
+			_, err := x.client.Database("a").Collection("b.c").InsertOne(ctx, bson.D{{Key: "_id", Value: int32(2)}})
+			return err
+		})
 	},
 	// names that cannot be persisted are refused at commit time (no state change)
 	func(x *reloadRun) {
 		ctx := context.Background()
-		x.call(func() error { _, err := x.client.Database("d1").Collection("c").InsertOne(ctx, bson.D{{Key: "_id", Value: int32(1)}}); return err })
-		x.call(func() error { _, err := x.client.Database("d1").Collection("n\x00ul").InsertOne(ctx, bson.D{{Key: "_id", Value: int32(1)}}); return err })
-		x.call(func() error { _, err := x.client.Database("d1").Collection("c").Indexes().CreateOne(ctx, mongo.IndexModel{Keys: bson.D{{Key: "a", Value: int32(1)}}, Options: options.Index().SetName("i\x00")}); return err })
-		x.call(func() error { _, err := x.client.Database("d1").Collection("c").InsertOne(ctx, bson.D{{Key: "_id", Value: int32(2)}}); return err })
+		x.call(func() error {
+			_, err := x.client.Database("d1").Collection("c").InsertOne(ctx, bson.D{{Key: "_id", Value: int32(1)}})
+			return err
+		})
+		x.call(func() error {
+			_, err := x.client.Database("d1").Collection("n\x00ul").InsertOne(ctx, bson.D{{Key: "_id", Value: int32(1)}})
+			return err
+		})
+		x.call(func() error {
+			_, err := x.client.Database("d1").Collection("c").Indexes().CreateOne(ctx, mongo.IndexModel{Keys: bson.D{{Key: "a", Value: int32(1)}}, Options: options.Index().SetName("i\x00")})
+			return err
+		})
+		x.call(func() error {
+			_, err := x.client.Database("d1").Collection("c").InsertOne(ctx, bson.D{{Key: "_id", Value: int32(2)}})
+			return err
+		})
 	},
 }
 
